@@ -837,7 +837,7 @@ func indexGuard(p *Prog, at ssa.Instruction, coll, idx ssa.Value) string {
 			}
 		}
 	}
-	if isUnsignedOrNonNeg(idx) {
+	if isUnsignedOrNonNeg(idx) || paramNonNegAtCallers(p, idx) {
 		lo = true
 	}
 	if lo && hi {
